@@ -21,6 +21,7 @@ mod fault;
 mod misc_suites;
 mod alloc;
 mod exp_types;
+mod dup_held;
 
 use report::{Cfg, Report};
 use std::collections::BTreeMap;
@@ -86,6 +87,7 @@ fn main() {
         "seg-domains" => seg_suites::suite_seg_domains(&cfg, &mut rep),
         "seg-bulk" => seg_suites::suite_seg_bulk(&cfg, &mut rep),
         "exp-types" => exp_types::suite_exp_types(&cfg, &mut rep),
+        "dup-held" => dup_held::suite_dup_held(&cfg, &mut rep),
         "fault" => fault::suite_fault(&cfg, &mut rep),
         "clear-twin" => misc_suites::suite_clear_twin(&cfg, &mut rep),
         "export-size" => misc_suites::suite_export_size(&cfg, &mut rep),
